@@ -35,6 +35,13 @@ func (f *ftrans) call(x *ast.CallExpr) *val {
 	if t := f.p.typeOfExprOpt(x.Fun); t != nil && len(x.Args) == 1 && (t.isNum() || t.k == kFloat) {
 		return f.conversion(x, t)
 	}
+	if t := f.p.typeOfExprOpt(x.Fun); t != nil && len(x.Args) == 1 && t.k == kList {
+		v := f.expr(x.Args[0])
+		if !sameType(v.t, t) {
+			f.p.bad(x, "conversion from %s to %s", v.t, t)
+		}
+		return &val{t: t, term: v.term}
+	}
 	switch qn {
 	case "len":
 		v := f.expr(x.Args[0])
@@ -48,9 +55,25 @@ func (f *ftrans) call(x *ast.CallExpr) *val {
 			return &val{t: tInt, term: "(llen " + atom(v.term) + ")"}
 		case v.elems != nil:
 			return &val{t: tInt, term: fmt.Sprintf("%d%%Z", len(v.elems)), cv: constant.MakeInt64(int64(len(v.elems)))}
+		case (v.t.k == kList || v.t.k == kString) && v.term != "":
+			return &val{t: tInt, term: "(llen " + atom(v.term) + ")"}
 		}
 		f.p.bad(x, "len of a %s", v.t)
+	case "append":
+		return f.appendCall(x)
+	case "min", "max":
+		return f.minMax(x, qn)
 	case "make":
+		if mt := f.p.typeOfExprOpt(x.Args[0]); mt != nil && mt.k == kList && len(x.Args) >= 2 {
+			// make([]T, 0[, cap]) for a list of records: the empty list (capacity is not represented)
+			if n := f.peekConst(x.Args[1]); n == nil || constant.Sign(n) != 0 {
+				f.p.bad(x, "make of a list of records with a non-zero length")
+			}
+			for _, a := range x.Args[2:] {
+				f.pureArg(a)
+			}
+			return &val{t: mt, term: "[]"}
+		}
 		if len(x.Args) != 2 || f.p.typeOfExprOpt(x.Args[0]) != tBytes {
 			f.p.bad(x, "make of something else than []byte with a length")
 		}
@@ -135,24 +158,9 @@ func (f *ftrans) call(x *ast.CallExpr) *val {
 			return f.callFunc(x, fd, nil)
 		}
 	}
-	if sel, ok := x.Fun.(*ast.SelectorExpr); ok {
-		if _, isPkg := sel.X.(*ast.Ident); !isPkg || f.env.has(sel.X.(*ast.Ident).Name) {
-			recv := f.expr(sel.X)
-			if recv.fields != nil {
-				rn := recv.t.name
-				if recv.t.k == kPtr {
-					rn = recv.t.elem.name
-				}
-				fd := f.p.findMethod(rn, sel.Sel.Name)
-				if fd == nil {
-					f.p.bad(x, "no method %s on %s", sel.Sel.Name, rn)
-				}
-				target := f.embeddedOf(recv, rn, fd.recv)
-				if target == nil {
-					f.p.bad(x, "cannot find the %s part of the receiver", fd.recv)
-				}
-				return f.callFunc(x, fd, target)
-			}
+	if _, isSel := x.Fun.(*ast.SelectorExpr); isSel {
+		if fd, recv := f.calleeOpt(x); fd != nil {
+			return f.callFunc(x, fd, recv)
 		}
 	}
 	f.p.bad(x, "call of %s", describe(x.Fun))
@@ -346,6 +354,9 @@ func (f *ftrans) callArgs(x *ast.CallExpr, sig *fsig, recv *val) []string {
 // flatLeaves lists the terms of the leaves of a symbolic struct value, in the order in which
 // recvValue declares the parameters of a method of that struct.
 func (f *ftrans) flatLeaves(v *val, at ast.Node) []string {
+	if v.fields == nil && v.term != "" {
+		return []string{atom(v.term)} // a record / a list: one argument
+	}
 	name := v.t.name
 	if v.t.k == kPtr {
 		name = v.t.elem.name
